@@ -15,7 +15,7 @@ import os
 import random
 
 from .. import core
-from ..budget import run_with_budget, CountingStream, Sink
+from ..budget import run_with_budget, CountingStream, Sink, open_stream, STREAM_KINDS
 
 
 def _canon_digits(n):
@@ -32,10 +32,10 @@ def _from_digits(d, ext):
     return n
 
 
-def _do_read(types, mx, data):
+def _do_read(types, mx, data, stream='counting'):
     cls = types.VarInt if mx == 5 else types.VarLong
-    st = CountingStream(data)
-    kind, val = run_with_budget(lambda: cls.read(st), 5000)
+    stream_obj, st = open_stream(stream, data)
+    kind, val = run_with_budget(lambda: cls.read(stream_obj), 5000)
     if kind == 'ok':
         if not isinstance(val, int) or isinstance(val, bool):
             return 'other', st.pos, None, 'returned %r' % (val,)
@@ -84,7 +84,18 @@ def run(chk):
         if row['k'] == 'r':
             n_r += 1
             mx, inp = row['mx'], row['inp']
-            o, c, v, note = _do_read(types, mx, inp)
+            # every kind of stream for short inputs and truncations, rotating kinds for the bulk
+            kinds = STREAM_KINDS if (len(inp) <= 2 or n_r % 9 == 0) else (STREAM_KINDS[n_r % 3],)
+            first = _do_read(types, mx, inp, kinds[0])
+            for sk in kinds[1:]:
+                o_, c_, v_, note_ = _do_read(types, mx, inp, sk)
+                if (o_, c_, v_) != first[:3]:
+                    chk.violation('%s.read:stream-kind:%s' % ('VarInt' if mx == 5 else 'VarLong', sk),
+                                  '%s.read(%s) gives %r on a %s stream and %r on a %s stream'
+                                  % ('VarInt' if mx == 5 else 'VarLong', bytes(inp).hex(), (o_, c_, v_), sk, first[:3], kinds[0]),
+                                  {'row': row, 'stream': sk})
+                    break
+            o, c, v, note = first
             key = ('r', mx, tuple(inp))
             chk.case(key, nontrivial=len(inp) > 0)
             chk.traces += 1
@@ -191,7 +202,7 @@ def run(chk):
             ln = rng.randint(0, 16)
             pcont = rng.choice([0.5, 0.9, 0.99])
             inp = [(0x80 if rng.random() < pcont else 0) | rng.getrandbits(7) for _ in range(ln)]
-            o, c, v, _ = _do_read(types, mx, inp)
+            o, c, v, _ = _do_read(types, mx, inp, STREAM_KINDS[i % 3])
             obs.append({'k': 'r', 'mx': mx, 'inp': inp, 'o': o, 'c': c,
                         'g': _canon_digits(v) if v is not None and v >= 0 else []})
         chk.case(('rand', i))
